@@ -434,6 +434,18 @@ type Listener struct {
 	closes int
 	err    error
 	taken  []net.Conn
+	// hold, when non-nil, keeps the next Accept that has taken a connection from returning until it is
+	// closed (the kernel has handed the connection over, the caller has not looked at it yet)
+	hold chan struct{}
+}
+
+// HoldNextAccept makes the next Accept that takes a connection wait for the returned release function.
+func (l *Listener) HoldNextAccept() (release func()) {
+	ch := make(chan struct{})
+	l.mu.Lock()
+	l.hold = ch
+	l.mu.Unlock()
+	return func() { close(ch) }
 }
 
 // Accepted lists the connections Accept has handed out so far.
@@ -472,7 +484,12 @@ func (l *Listener) Accept() (net.Conn, error) {
 	case c := <-l.conns:
 		l.mu.Lock()
 		l.taken = append(l.taken, c)
+		hold := l.hold
+		l.hold = nil
 		l.mu.Unlock()
+		if hold != nil {
+			<-hold
+		}
 		return c, nil
 	case <-l.done:
 		l.mu.Lock()
